@@ -28,6 +28,10 @@ def run(ck: Check, repo: Repo) -> None:
     ck.rule("C04.5", "EvolvableModule.clone loads the parent's state dict; a swallowed shape error is acceptable only for classes whose "
                      "constructor description is faithful (C03.4)")
     ck.rule("C04.6", "every override of clone() on a module passes every constructor parameter from self and transfers the parameters the class creates itself")
+    ck.rule("C04.7", "an unchanged architecture is rebuilt as it was constructed: the builder call in recreate_network has the same keyword set and values "
+                     "as the one in __init__ (activation, normalisation, noise flags ... decide the function computed by the carried-over weights)")
+    from .c03 import _build_agreement
+    _build_agreement(ck, repo, "C04.7")
     pp = repo.fn(MB, "EvolvableModule.preserve_parameters")
     sp = repo.fn("agilerl.modules.cnn", "EvolvableCNN.shrink_preserve_parameters")
     _preserve_common(ck, repo, pp, "C04.1")
@@ -46,16 +50,18 @@ def _preserve_common(ck: Check, repo: Repo, fn: Fn, rule: str) -> None:
     old_p, new_p = params[0], params[1]
     cfg = CFG(fn.node)
     tb = TermBuilder(repo, fn, cfg=cfg, depth=0)
-    loops = [n for n in cfg.live_nodes() if n.kind == "for"]
-    ok = len(loops) == 1 and isinstance(loops[0].ast.iter, ast.Call) and last_attr(loops[0].ast.iter) == "named_parameters" and dotted(loops[0].ast.iter.func.value) == new_p
-    ck.ob(rule, fn, loops[0].ast.iter if loops else fn.node, ok, f"{fn.name}: iterates over the parameters of the NEW network")
+    all_loops = [n for n in cfg.live_nodes() if n.kind == "for"]
+    loops = [n for n in all_loops if isinstance(n.ast.iter, ast.Call) and last_attr(n.ast.iter) == "named_parameters"]
+    ok = len(loops) == 1 and dotted(loops[0].ast.iter.func.value) == new_p
+    ck.ob(rule, fn, loops[0].ast.iter if loops else fn.node, ok, f"{fn.name}: iterates (once) over the parameters of the NEW network")
+    in_param_loop = {id(x) for l in loops for x in ast.walk(l.ast)}
     src = ast.unparse(fn.node)
     ck.ob(rule, fn, fn.node, f"dict({old_p}.named_parameters())" in src, f"{fn.name}: looks old parameters up by name in the OLD network", construct=f"{fn.name}: old lookup table")
     rets = [n for n in cfg.live_nodes() if n.kind == "stmt" and isinstance(n.ast, ast.Return)]
     ck.ob(rule, fn, rets[0].ast if rets else fn.node, bool(rets) and all(dotted(r.ast.value) == new_p for r in rets), f"{fn.name}: returns the new network")
     # whole-tensor copy when sizes are equal
     whole = [n for n in cfg.live_nodes() if n.kind == "stmt" and isinstance(n.ast, ast.Assign) and isinstance(n.ast.targets[0], ast.Attribute)
-             and n.ast.targets[0].attr == "data" and not isinstance(n.ast.targets[0].value, ast.Subscript)]
+             and n.ast.targets[0].attr == "data" and not isinstance(n.ast.targets[0].value, ast.Subscript) and id(n.ast) in in_param_loop]
     ok = False
     for n in whole:
         lt, rt = tb.term(n.ast.targets[0].value, n), tb.term(n.ast.value, n)
@@ -64,8 +70,54 @@ def _preserve_common(ck: Check, repo: Repo, fn: Fn, rule: str) -> None:
         ok = _from(tb, lt, new_p) and _from(tb, rt, old_p) and not _from(tb, rt, new_p) and eq
         ck.ob(rule, fn, n.ast, ok, f"{fn.name}: equal sizes -> the new parameter receives the old parameter's data (old -> new)")
     ck.ob(rule, fn, fn.node, bool(whole), f"{fn.name}: has a whole-tensor copy for unchanged shapes", construct=f"{fn.name}: whole copy")
+    # buffers: the layer builders create modules whose function depends on registered buffers (BatchNorm running statistics)
+    users = _buffer_layer_sites(repo)
+    ck.note("C04_buffer_layers", users[:8])
+    if users:
+        bl = [n for n in cfg.live_nodes() if n.kind == "for" and isinstance(n.ast.iter, ast.Call) and last_attr(n.ast.iter) in ("named_buffers", "state_dict")
+              and dotted(n.ast.iter.func.value) == new_p] + \
+             [n for n in cfg.live_nodes() if n.kind == "for" and any(isinstance(c, ast.Call) and last_attr(c) == "named_buffers" and dotted(c.func.value) == new_p for c in ast.walk(n.ast.iter))]
+        okb = False
+        whyb = f"{fn.name} iterates over named_parameters() only"
+        for l in bl:
+            tvars = {x.id for x in ast.walk(l.ast.target) if isinstance(x, ast.Name)}
+            for st in ast.walk(l.ast):
+                if isinstance(st, ast.Assign) and isinstance(st.targets[0], (ast.Attribute, ast.Subscript)):
+                    tgt_names = {x.id for x in ast.walk(st.targets[0]) if isinstance(x, ast.Name)}
+                    node = cfg.node_of(st)
+                    if node is None or not (tgt_names & tvars):
+                        continue
+                    rt = tb.term(st.value, node)
+                    if _from(tb, rt, old_p) and not _from(tb, rt, new_p):
+                        okb = True
+                elif isinstance(st, ast.Call) and last_attr(st) == "copy_" and st.args:
+                    node = cfg.node_of(st)
+                    base_names = {x.id for x in ast.walk(st.func.value) if isinstance(x, ast.Name)}
+                    if node is not None and base_names & tvars and _from(tb, tb.term(st.args[0], node), old_p):
+                        okb = True
+            if not okb:
+                whyb = f"{fn.name} iterates over the new network's buffers but stores nothing derived from the old network into them"
+        ck.ob(rule, fn, bl[0].ast.iter if bl else fn.node, okb,
+              f"{fn.name}: buffers of unchanged shape (BatchNorm running statistics ...) are carried over from the old network",
+              detail=whyb + f"; the layer builders create buffered layers ({users[0]} ...): after a mutation that leaves the architecture unchanged the rebuilt "
+                     "network would start from fresh running statistics and compute a different function in eval mode",
+              construct=f"{fn.name}: buffers carried over")
+    wextra: Set[str] = set()
+    for n in whole:
+        for gg, pol, _ in cfg.guards_at(n):
+            for a, apol in conjuncts(gg, pol):
+                t = ast.unparse(a)
+                if "old_net_dict" in t or "old_size" in t or "new_size" in t or "len(param.data.size())" in t:
+                    continue
+                wextra.add(("" if apol else "not ") + t)
+    for e in sorted(wextra) or [None]:
+        ck.ob(rule, fn, whole[0].ast if whole else fn.node, e is None,
+              f"{fn.name}: a parameter whose shape did not change is carried over whatever its name",
+              detail=f"the whole-tensor copy is additionally filtered by `{e}`: parameters it excludes are re-initialised by every mutation even though "
+                     "their shape is unchanged, so a mutation that leaves the architecture unchanged no longer computes the same function",
+              construct=f"{fn.name}: whole-copy filter {e}")
     # filters other than `key in old` and the size comparison
-    sliced = [n for n in cfg.live_nodes() if n.kind == "stmt" and isinstance(n.ast, ast.Assign) and isinstance(n.ast.targets[0], ast.Subscript)]
+    sliced = [n for n in cfg.live_nodes() if n.kind == "stmt" and isinstance(n.ast, ast.Assign) and isinstance(n.ast.targets[0], ast.Subscript) and id(n.ast) in in_param_loop]
     extra: Set[str] = set()
     for n in sliced:
         for gg, pol, _ in cfg.guards_at(n):
@@ -80,6 +132,22 @@ def _preserve_common(ck: Check, repo: Repo, fn: Fn, rule: str) -> None:
               detail=f"resized parameters are additionally filtered by `{e}`: a matching parameter whose size changed is left freshly initialised "
                      "(its overlapping weights are not carried over)",
               construct=f"{fn.name}: extra filter {e}")
+
+
+_BUFFERED = ("BatchNorm1d", "BatchNorm2d", "BatchNorm3d", "InstanceNorm2d", "InstanceNorm3d")
+
+
+def _buffer_layer_sites(repo: Repo) -> List[str]:
+    """Places where the repository's layer builders mention a torch layer type that registers buffers."""
+    out = []
+    for modname in ("agilerl.utils.evolvable_networks", "agilerl.modules.custom_components"):
+        m = repo.mods.get(modname)
+        if m is None:
+            continue
+        for n in ast.walk(m.tree):
+            if isinstance(n, ast.Attribute) and n.attr in _BUFFERED and dotted(n.value) == "nn":
+                out.append(f"{m.rel}:{n.lineno} nn.{n.attr}")
+    return out
 
 
 def _from(tb: TermBuilder, p: Poly, param: str, _d: int = 0) -> bool:
@@ -104,7 +172,7 @@ def _preserve_slices(ck: Check, repo: Repo, fn: Fn) -> None:
     tb = TermBuilder(repo, fn, cfg=cfg, depth=0)
     old_p, new_p = fn.named_params[0], fn.named_params[1]
     sliced = [n for n in cfg.live_nodes() if n.kind == "stmt" and isinstance(n.ast, ast.Assign) and isinstance(n.ast.targets[0], ast.Subscript)]
-    ck.floor("C04.1", len(sliced), 1, "sliced copy in preserve_parameters")
+    ck.floor("C04.1", len(sliced), 1, "sliced copy in preserve_parameters", fn=fn)
     for n in sliced:
         t, v = n.ast.targets[0], n.ast.value
         ok = isinstance(v, ast.Subscript) and ast.unparse(t.slice) == ast.unparse(v.slice)
@@ -141,7 +209,7 @@ def _shrink_slices(ck: Check, repo: Repo, fn: Fn) -> None:
     tb = TermBuilder(repo, fn, cfg=cfg, depth=0)
     old_p, new_p = fn.named_params[0], fn.named_params[1]
     sliced = [n for n in cfg.live_nodes() if n.kind == "stmt" and isinstance(n.ast, ast.Assign) and isinstance(n.ast.targets[0], ast.Subscript)]
-    ck.floor("C04.2", len(sliced), 2, "sliced copies in shrink_preserve_parameters")
+    ck.floor("C04.2", len(sliced), 2, "sliced copies in shrink_preserve_parameters", fn=fn)
     for n in sliced:
         t, v = n.ast.targets[0], n.ast.value
         ok = isinstance(v, ast.Subscript) and ast.unparse(t.slice) == ast.unparse(v.slice)
@@ -288,9 +356,16 @@ VARIANTS = [
     ("preserve-different-index", _MB, "                    param.data[slice_index] = old_param.data[slice_index]", "                    param.data[slice_index] = old_param.data[: len(slice_index)]", "fire", "C04.1"),
     ("preserve-max", _MB, "slice(0, min(o, n)) for o, n in zip(old_size, new_size)", "slice(0, max(o, n)) for o, n in zip(old_size, new_size)", "fire", "C04.1"),
     ("preserve-start-one", _MB, "slice(0, min(o, n)) for o, n in zip(old_size, new_size)", "slice(1, min(o, n)) for o, n in zip(old_size, new_size)", "fire", "C04.1"),
+    ("preserve-norm-filter-outer", _MB, "            if key in old_net_dict.keys():\n                old_param = old_net_dict[key]", "            if key in old_net_dict.keys() and \"norm\" not in key:\n                old_param = old_net_dict[key]", "fire", "C04.1"),
+    ("mlp-rebuild-drops-new-gelu", "agilerl/modules/mlp.py", "            noise_std=self.noise_std,\n            new_gelu=self.new_gelu,\n            device=self.device,\n            name=self.name,\n        )\n\n        self.model = EvolvableModule", "            noise_std=self.noise_std,\n            device=self.device,\n            name=self.name,\n        )\n\n        self.model = EvolvableModule", "fire", "C04.7"),
+    ("simba-rebuild-scale-factor-const", "agilerl/modules/simba.py", "            scale_factor=self.scale_factor,\n            device=self.device,\n            name=self.name,\n        )\n\n        self.model = EvolvableModule.preserve_parameters", "            scale_factor=4,\n            device=self.device,\n            name=self.name,\n        )\n\n        self.model = EvolvableModule.preserve_parameters", "fire", "C04.7"),
+    ("preserve-buffers-dropped", _MB, "                buffer.data = old_buffers[key].data\n", "                pass\n", "fire", "C04.1"),
+    ("preserve-buffers-from-new", _MB, "        old_buffers = dict(old_net.named_buffers())\n", "        old_buffers = dict(new_net.named_buffers())\n", "fire", "C04.1"),
+    ("shrink-buffers-dropped", "agilerl/modules/cnn.py", "                buffer.data = old_buffers[key].data\n", "                pass\n", "fire", "C04.2"),
+    ("preserve-buffers-copy-ok", _MB, "                buffer.data = old_buffers[key].data\n", "                buffer.copy_(old_buffers[key])\n", "silent", None),
     ("preserve-skip-bias", _MB, "                elif \"norm\" not in key:\n                    # Create a slicing", "                elif \"norm\" not in key and \"bias\" not in key:\n                    # Create a slicing", "fire", "C04.1"),
     ("preserve-iter-old", _MB, "        old_net_dict = dict(old_net.named_parameters())\n\n        for key, param in new_net.named_parameters():", "        old_net_dict = dict(new_net.named_parameters())\n\n        for key, param in old_net.named_parameters():", "fire", "C04.1"),
-    ("preserve-return-old", _MB, "                    param.data[slice_index] = old_param.data[slice_index]\n\n        return new_net", "                    param.data[slice_index] = old_param.data[slice_index]\n\n        return old_net", "fire", "C04.1"),
+    ("preserve-return-old", _MB, "                buffer.data = old_buffers[key].data\n\n        return new_net\n\n    @staticmethod\n    def init_weights_gaussian", "                buffer.data = old_buffers[key].data\n\n        return old_net\n\n    @staticmethod\n    def init_weights_gaussian", "fire", "C04.1"),
     ("shrink-second-dim-old", _CNN, "min_1 = min(old_size[1], new_size[1])", "min_1 = old_size[1]", "fire", "C04.2"),
     ("shrink-mixed-index", _CNN, "                        param.data[:min_0, :min_1] = old_net_dict[key].data[\n                            :min_0, :min_1\n                        ]", "                        param.data[:min_0, :min_1] = old_net_dict[key].data[\n                            :min_1, :min_0\n                        ]", "fire", "C04.2"),
     ("mlp-swapped-args", "agilerl/modules/mlp.py", "            old_net=self.model, new_net=model\n", "            old_net=model, new_net=self.model\n", "fire", "C04.3"),
